@@ -221,8 +221,16 @@ fn produce_image_from_entry(entry: &Entry) -> Result<image::RgbaImage, String> {
 
     let offset_x = entry.specs.offset_x;
     let offset_y = entry.specs.offset_y;
-    let output_width = content_width + offset_x;
-    let output_height = content_height + offset_y;
+    // (the offsets are arbitrary 32-bit fields of the entry; make sure the image is something we can hold in memory)
+    const MAX_PIXELS: u64 = 1 << 26;
+    let output_width = content_width.checked_add(offset_x);
+    let output_height = content_height.checked_add(offset_y);
+    let (output_width, output_height) = match (output_width, output_height) {
+        (Some(w), Some(h)) if w as u64 * h as u64 <= MAX_PIXELS => (w, h),
+        _ => return Err(format!(
+            "image too large ({}x{} at offset ({}, {}))", content_width, content_height, offset_x, offset_y,
+        )),
+    };
     let output_init_argb = vec![0xFF; 4 * output_width as usize * output_height as usize];
     let mut output = BgraImage::from_raw(output_width, output_height, output_init_argb).expect("size error?!");
 
